@@ -612,6 +612,152 @@ def replay_nested(rp):
     return 1 if c.violations else 0
 
 
+# ---------------------------------------------------------------- runs of text parts on one unit (`p{}{b}`, `p{a}.c{b}{c}`)
+# The grammar gives a unit (name, attributes, text, repeater in any order) ONE text: a further `{...}` written directly
+# after it is a text of its own -- an anonymous text node that FOLLOWS the unit as its sibling (what `p{a}+{b}` writes
+# with the operator).  The statement's clause "text written in `{...}` becomes the content of ITS element character for
+# character" therefore fixes the output of a run `name{T1}{T2}{T3}` whatever the payloads are -- in particular when one
+# of them is EMPTY (`{}`), only white space, or a line break: `<name>T1</name>T2T3`.  Attribute parts written between
+# the texts still belong to the named unit.
+RUN_ATTRS = [('.c', ' class="c"'), ('#i', ' id="i"'), ('[a=b]', ' a="b"'), ('[k="v w"]', ' k="v w"')]
+RUN_EMPTY_FIRST = True       # runs whose first / middle / last text is the empty `{}` (off: only non-empty payloads)
+
+
+def run_payload(rng, breaks=True):
+    k = rng.random()
+    if k < (0.4 if RUN_EMPTY_FIRST else 0.0):
+        return ''
+    if k < 0.5:
+        return rng.choice([' ', '\t', '  ', '\xa0'] + (['\n'] if breaks else []))
+    return g.payload_text(rng, rng.choice([1, 1, 2, 3, 5, 8]), breaks and rng.random() < 0.1) or 'x'
+
+
+def tpiece(v):
+    return ['T', v] if v else ''
+
+
+def text_run(rng, name, n_texts, breaks=True, ph=False, star_at=None):
+    """One named unit carrying attribute parts and n_texts text parts.  Returns (abbr, open tag, [payloads as written], what follows `$#` in the first text).
+    star_at: index of the part after which the implicit repeater `*` is written (0 = directly after the name), only
+    positions before the second text (after it the repeater would belong to the text node)."""
+    k = rng.randint(0, len(RUN_ATTRS))
+    attrs = sorted(rng.sample(range(len(RUN_ATTRS)), k))
+    cut = rng.randint(0, len(attrs))
+    if n_texts == 1 and cut == len(attrs):
+        # a single text: only of interest here with attribute parts AFTER the (possibly empty) text
+        attrs = attrs or [rng.randrange(len(RUN_ATTRS))]
+        cut = rng.randint(0, len(attrs) - 1)
+    texts = [run_payload(rng, breaks) for _ in range(n_texts)]
+    written = list(texts)
+    suffix = rng.choice(['', '', '!', ' ']) if ph else ''
+    if ph:
+        written[0] = texts[0] + '$#' + suffix
+    parts = [RUN_ATTRS[i][0] for i in attrs[:cut]] + ['{%s}' % written[0]] + [RUN_ATTRS[i][0] for i in attrs[cut:]]
+    first_len = len(parts)
+    if star_at is not None:
+        parts.insert(min(star_at, first_len), '*')
+    parts += ['{%s}' % t for t in written[1:]]
+    return name + ''.join(parts), '<' + name + ''.join(RUN_ATTRS[i][1] for i in attrs) + '>', texts, suffix
+
+
+def gen_text_runs(ctx, n):
+    rng = ctx.rng
+    out = []
+    # every combination of empty / blank / plain first and second text, with and without attribute parts in between,
+    # in each surrounding; then random runs
+    basic = ['', ' ', 'a', '\\}', '{}', '*', '>b', '\n']
+    for t1 in basic:
+        for t2 in basic:
+            v1, v2 = g.unescape(t1), g.unescape(t2)
+            for mid, tag in (('', ''), ('.c', ' class="c"'), ('[a=b]', ' a="b"'), ('#i.c[a=b]', ' id="i" class="c" a="b"')):
+                fixed = [('p{%s}%s{%s}' % (t1, mid, t2), ['<p%s>' % tag, tpiece(v1), '</p>', tpiece(v2)])]
+                if not mid:
+                    fixed += [
+                        ('div>p{%s}{%s}+q' % (t1, t2), ['<div><p>', tpiece(v1), '</p>', tpiece(v2), '<q></q></div>']),
+                        ('p{%s}{%s}>i' % (t1, t2), ['<p>', tpiece(v1), '</p>', tpiece(v2), '<i></i>']),
+                        ('(p{%s}{%s})*2' % (t1, t2), ['<p>', tpiece(v1), '</p>', tpiece(v2)] * 2),
+                        ('p{%s}{%s}{%s}' % (t1, t2, t1), ['<p>', tpiece(v1), '</p>', tpiece(v2), tpiece(v1)]),
+                        ('{%s}{%s}' % (t1, t2), [tpiece(v1), tpiece(v2)]),
+                        ('p{%s}*2{%s}' % (t1, t2), ['<p>', tpiece(v1), '</p><p>', tpiece(v1), '</p>', tpiece(v2)]),
+                    ]
+                for abbr, pieces in fixed:
+                    out.append(case('runs:fixed', abbr, pieces))
+            if '\n' not in t1 + t2:
+                for abbr in ('ul>li*{%s}{%s}', 'ul>li{%s}*{%s}'):
+                    out.append(case('runs:wrap-implicit', abbr % (t1, t2),
+                                    ['<ul><li>', tpiece(v1 + 'one'), '</li><li>', tpiece(v1 + 'two'), '</li>', tpiece(v2), '</ul>'],
+                                    plain({'text': ['one', ' ', 'two ']})))
+                out.append(case('runs:wrap-plain', 'p{%s}{%s}+q' % (t1, t2), ['<p>', tpiece(v1), '</p>', tpiece(v2), '<q>L 1</q>'],
+                                plain({'text': [' L 1']})))
+    for _ in range(n):
+        name = rng.choice(g.WNAMES)
+        n_texts = rng.choice([1, 2, 2, 2, 3, 4])
+        k = rng.random()
+        if k < 0.55:
+            abbr, tag, texts, suffix = text_run(rng, name, n_texts)
+            vals = [g.unescape(t) for t in texts]
+            unit = [tag, tpiece(vals[0]), '</%s>' % name] + [tpiece(v) for v in vals[1:]]
+            last = vals[-1] if n_texts > 1 else None
+            follow = rng.choice(['', '', '+q', '>i', '>i+b', '*2', '^q'])
+            if follow == '*2' and n_texts == 1:
+                follow = '+q'
+            tail = {'': [], '+q': ['<q></q>'], '>i': ['<i></i>'], '>i+b': ['<i></i><b></b>'], '*2': [tpiece(last)], '^q': ['<q></q>']}[follow]
+            if n_texts == 1 and follow.startswith('>'):
+                unit = unit[:2] + tail + unit[2:]
+                tail = []
+            wrapper = rng.choice(['%s', '%s', 'div>%s', '(%s)+em', 'em+%s', '(%s)*2'])
+            if follow == '^q' and wrapper != 'div>%s':
+                wrapper = '%s'
+            body = unit + tail
+            if wrapper == 'div>%s':
+                pieces = ['<div>'] + body + ['</div>']
+                if follow == '^q':
+                    pieces = ['<div>'] + unit + ['</div><q></q>']
+            else:
+                pieces = {'%s': body, '(%s)+em': body + ['<em></em>'], 'em+%s': ['<em></em>'] + body, '(%s)*2': body * 2}[wrapper]
+            out.append(case('runs:%d-texts' % n_texts, wrapper % (abbr + follow), pieces))
+            ctx.cover('runs:first text ' + ('empty' if not vals[0] else 'blank' if not vals[0].strip() else 'non-empty'))
+            if n_texts > 1:
+                ctx.cover('runs:second text ' + ('empty' if not vals[1] else 'blank' if not vals[1].strip() else 'non-empty'))
+        elif k < 0.8:
+            # wrap lines, the implicit repeater on the named unit (written at any place before the second text)
+            lines = g.rand_lines(rng)
+            nb = [l.strip() for l in lines if l.strip()]
+            ph = rng.random() < 0.4
+            abbr, tag, texts, suffix = text_run(rng, name, max(n_texts, 2), breaks=False, ph=ph, star_at=rng.randint(0, 4))
+            vals = [g.unescape(t) for t in texts]
+            pieces = []
+            for l in nb:
+                pieces += [tag, tpiece(vals[0] + l + suffix), '</%s>' % name]
+            pieces += [tpiece(v) for v in vals[1:]]
+            wrapper = rng.choice(['%s', 'ul>%s', '%s+q'])
+            pieces = {'%s': pieces, 'ul>%s': ['<ul>'] + pieces + ['</ul>'], '%s+q': pieces + ['<q></q>']}[wrapper]
+            out.append(case('runs:wrap-implicit' + ('+$#' if ph else ''), wrapper % abbr, pieces, plain({'text': lines})))
+            ctx.cover('runs:wrap first text ' + ('empty' if not texts[0] else 'non-empty') + (' + `$#`' if ph else ''))
+        elif k < 0.9:
+            # the implicit repeater on the LAST text of the run: that text node is X, one copy per line
+            lines = g.rand_lines(rng)
+            nb = [l.strip() for l in lines if l.strip()]
+            abbr, tag, texts, suffix = text_run(rng, name, max(n_texts, 2), breaks=False)
+            vals = [g.unescape(t) for t in texts]
+            pieces = [tag, tpiece(vals[0]), '</%s>' % name] + [tpiece(v) for v in vals[1:-1]] + [tpiece(vals[-1] + l) for l in nb]
+            out.append(case('runs:wrap-implicit-on-text', 'div>' + abbr + '*', ['<div>'] + pieces + ['</div>'], plain({'text': lines})))
+        else:
+            # no implicit repeater: the whole text goes once into the deepest last element
+            lines = g.rand_lines(rng)
+            whole = '\n'.join(lines).strip()
+            abbr, tag, texts, suffix = text_run(rng, name, max(n_texts, 2), breaks=False)
+            vals = [g.unescape(t) for t in texts]
+            follow = rng.choice(['', '+q', '>i'])
+            if follow:
+                pieces = [tag, tpiece(vals[0]), '</%s>' % name] + [tpiece(v) for v in vals[1:]] + ['<%s>' % follow[1], tpiece(whole), '</%s>' % follow[1]]
+            else:
+                pieces = [tag, tpiece(vals[0]), '</%s>' % name] + [tpiece(v) for v in vals[1:-1]] + [tpiece(vals[-1] + whole)]
+            out.append(case('runs:wrap-plain', abbr + follow, pieces, plain({'text': lines})))
+        ctx.nontrivial(out[-1][0])
+    return out
+
+
 def gen_outside(ctx, n):
     """Inputs outside the statement's domain (unbalanced braces, unescaped `$`, `$#` without or outside the
     implicit repeater, several implicit repeaters, text given as one multi-line / padded string together with an
@@ -923,6 +1069,7 @@ def run(ctx):
     cases += gen_wrap_nested(ctx, 800 if quick else 12000)
     cases += gen_wrap_alias(ctx, 900 if quick else 20000)
     cases += gen_typed(ctx, 700 if quick else 25000)
+    cases += gen_text_runs(ctx, 700 if quick else 20000)
     cases += gen_outside(ctx, 1500 if quick else 30000)
     nested = gen_nested(ctx, 1200 if quick else 12000)
     cases += nested
